@@ -1,0 +1,34 @@
+//go:build verif
+
+// Contracts for package graphql, read by /verif/engine (govc). Comment-only: with the
+// verif tag this file compiles to an empty package member list; without it it is not compiled.
+package graphql
+
+//@ func NewClientError
+//@   assigns nothing
+//@   ensures result != nil
+//@   ensures result is ClientError
+
+//@ func findDirectiveWithName
+//@   requires forall k int :: 0 <= k && k < len(directives) ==> directives[k] != nil
+//@   assigns nothing
+//@   ensures result == nil ==> noneNamed(directives, name)
+//@   ensures result != nil ==> exists k int :: firstNamed(directives, name, k) && directives[k] == result
+//@   loop 1 invariant -1 <= rangeindex && rangeindex < len(directives)
+//@   loop 1 invariant forall k int :: 0 <= k && k <= rangeindex ==> directives[k].Name != name
+//@   loop 1 decreases len(directives) - rangeindex
+
+//@ pred noneNamed(ds []*Directive, name string) = forall k int :: 0 <= k && k < len(ds) ==> ds[k].Name != name
+//@ pred firstNamed(ds []*Directive, name string, k int) = 0 <= k && k < len(ds) && ds[k].Name == name && (forall j int :: 0 <= j && j < k ==> ds[j].Name != name)
+//@ pred ifArg(d *Directive) = d.Args.(map[string]interface{})["if"]
+
+//@ func parseIf
+//@   requires d != nil && d.Args is map[string]interface{}
+//@   assigns nothing
+//@   ensures err == nil <==> ifArg(d) is bool
+//@   ensures err == nil ==> result == ifArg(d).(bool)
+
+//@ func ShouldIncludeNode
+//@   requires forall k int :: 0 <= k && k < len(directives) ==> directives[k] != nil && directives[k].Args is map[string]interface{}
+//@   assigns nothing
+//@   ensures err == nil ==> forall s int, i int :: (noneNamed(directives, "skip") || firstNamed(directives, "skip", s)) && (noneNamed(directives, "include") || firstNamed(directives, "include", i)) ==> (result <==> ((noneNamed(directives, "skip") || (ifArg(directives[s]) is bool && !ifArg(directives[s]).(bool))) && (noneNamed(directives, "include") || (ifArg(directives[i]) is bool && ifArg(directives[i]).(bool)))))
